@@ -2160,13 +2160,15 @@ namespace bxdecay0 {
       /* The code for output ASCII file has not been ported in C++ */
 
       bb_params_.istartbb = 0;
+      if (i2bbs_ == 1) {
+        // Compute daughter level in MeV (also needed when an event is generated right after the initialization) :
+        bb_params_.Edlevel = bb_params_.levelE / 1000.;
+      }
       if (istart_ == GENBBSUB_ISTART_INIT) {
         if (i2bbs_ == 1) {
           if (trace) {
             std::cerr << "[debug] bxdecay0::genbbsub: Initializing DBD process..." << std::endl;
           }
-          // Compute daughter level in MeV :
-          bb_params_.Edlevel = bb_params_.levelE / 1000.;
           if (trace) {
             if (trace) {
               std::cerr << "[debug] bxdecay0::genbbsub: DBD parameters (before init):" << std::endl;
